@@ -301,11 +301,9 @@ class ForceMatrix:
                                             params=parameters,
                                             args=arguments)
                 # TODO: replace Matrix by ndarray in this code
-                xres = [solution.params[name].value for name in solution.params]
-
-                # reinsert all the removed spaces
-                for index in removed_indices:
-                    xres = xres.insert(index, -1)
+                # the excluded interfaces are re-inserted (as -1) further down,
+                # by get_solution_no_discarded, exactly as for the other back-ends
+                xres = np.array([solution.params[name].value for name in solution.params])
             else:
                 try:
                     xres = np.linalg.inv(mprime) @ b
